@@ -3,6 +3,7 @@
 package script
 
 import (
+	"slices"
 	"vt/internal/fx/delta"
 	lcodec "vt/internal/fx/left/codec"
 	rcodec "vt/internal/fx/right/codec"
@@ -46,6 +47,8 @@ type Piece struct {
 	Refs []string `json:"refs,omitempty"`
 	// Rotate: the package decides which suffix of Refs is used (t pieces)
 	Rotate bool `json:"rotate,omitempty"`
+	// Parts: texts of a "multi" piece: one Render call whose snippet yields the parts as separate fragments
+	Parts []string `json:"parts,omitempty"`
 }
 
 type DeferAction struct {
@@ -270,6 +273,12 @@ func render(c gengo.Context, pieces []Piece, gen, typ string, st *state, into *s
 			sn = snippet.Sprintf("\n%T\nvar _"+gen+"_doc_"+typ+" = %v\n", snippet.Comment(fmt.Sprintf("%s:%s doc=%q", typ, tb.String(), doc)), doc)
 		case "block":
 			sn = snippet.Block(text)
+		case "multi":
+			parts := make([]snippet.Snippet, 0, len(p.Parts))
+			for _, pt := range p.Parts {
+				parts = append(parts, snippet.Block(expand(pt, gen, typ, st)))
+			}
+			sn = snippet.Snippets(slices.Values(parts))
 		case "t":
 			args := snippet.Args{}
 			refs := p.Refs
